@@ -23,7 +23,7 @@ META = dict(
     explanation="Equilibrium = symbolic positive tensions T with sum_e T_e u(e,j) = 0 at every used junction; tangents u are symbolic "
                 "unit vectors (their correctness is C02's obligation, re-run here on 3-point arcs).  The reported values are compared "
                 "with E*T/sum(T) for every such configuration.",
-    bounds=dict(tissues="quick: T3 (3x4 rectangular: fallback), K3-n0; thorough adds K3 (7x7 square: inversion path, both inverse outcomes) and K4", methods="default, lsq_linear, lsq",
+    bounds=dict(tissues="quick: T3 (3x4 rectangular: fallback), K3-n0; thorough adds K3 (7x7 square: inversion path, both inverse outcomes; 25 min)", methods="default, lsq_linear, lsq",
                 arcs="3 points per interface for the tangent link (C02 covers up to 9)"),
     outside=["numerical tolerance of the back-ends", "exactly collinear >= 3-point interfaces (MINPACK)", "tissues beyond the catalogue",
              "mesh resampling leg: see C11 (kept points are a subsequence including both ends)"],
@@ -166,7 +166,7 @@ def recover(env, topo, method, inv_outcomes="both", pre_limit=None, light=False)
 def jobs(tier):
     js = []
     quick = tier == "quick"
-    for topo in (("T3", "K3-n0") if quick else ("T3", "K3-n0", "K3", "K4")):
+    for topo in (("T3", "K3-n0") if quick else ("T3", "K3-n0", "K3")):       # K4 (9x9): exploration exceeds 40 min, outside
         for method in (None, "lsq_linear", "lsq"):
             if topo in ("K3", "K4") and method == "lsq_linear":
                 continue        # bordered normal system of a 6-column matrix: polynomial blow-up, outside the bound
